@@ -27,7 +27,7 @@ package ggql
 //@   check lock {C12}
 //@   check panic {C03}
 //@   requires root != nil
-//@   requires[unlocked] forall m int {held[m]} :: !held[m]
+//@   requires[unlocked] onlyRegistryLock(root)
 //@   ensures[locks-balanced] held == old(held)
 //@   ensures[typed] obj != nil ==> ptrval(obj) != 0
 //@   assigns fresh, held
@@ -62,7 +62,7 @@ package ggql
 //@   check lock {C12}
 //@   requires root != nil && field != nil
 //@   requires t != nil ==> ptrval(t) != 0
-//@   requires[unlocked] forall m int {held[m]} :: !held[m]
+//@   requires[unlocked] onlyRegistryLock(root)
 //@   assumes errsFresh(ea)
 //@   ensures[locks-balanced] held == old(held)
 //@   assigns fresh, H_Object.meta, H_FieldDef.goField, H_FieldDef.method, H_FieldDef.args, held, #res
